@@ -189,7 +189,7 @@ inductive PayRel (cfg : DispCfg) (h : Int) (s : DispState) (r : Rec) : DispState
       sendModuleToAccount cfg.blocked s.bank cfg.module (cfg.canon r.rcpt) r.coins = some b' →
       PayRel cfg h s r
         { s with bank := b', completed := sSet s.completed r.key { r with done := h }, pending := sDel s.pending r.key,
-                 claims := if r.typ.claimable then sDel s.claims (claimKey r.rcpt r.typ) else s.claims } .paid
+                 claims := if r.typ.claimable then sDel s.claims (claimKey (cfg.canon r.rcpt) r.typ) else s.claims } .paid
 
 theorem moveRec_ok {s : DispState} {r : Rec} (toFailed : Bool) (h : Int) (hv : r.valid = true)
     (hg : sGet s.pending r.key = some r) :
@@ -267,7 +267,7 @@ theorem payRel_inv {cfg : DispCfg} {h : Int} {s s' : DispState} {r : Rec} {o : O
       · simp [hk]; omega
   | paid b' ha hs =>
     have hpd := pendOK_sDel hp r.key
-    have hsl : Sorted (if r.typ.claimable then sDel s.claims (claimKey r.rcpt r.typ) else s.claims) := by
+    have hsl : Sorted (if r.typ.claimable then sDel s.claims (claimKey (cfg.canon r.rcpt) r.typ) else s.claims) := by
       split
       · exact sorted_sDel hi.wf.sl _
       · exact hi.wf.sl
@@ -313,7 +313,7 @@ structure RunFacts (cfg : DispCfg) (h : Int) (s s' : DispState) (os : List (Key 
   donePaid : ∀ x ∈ os, x.2.2 = .paid → sGet s'.completed x.1 = some { x.2.1 with done := h }
   doneFailed : ∀ x ∈ os, x.2.2 = .failed → sGet s'.failed x.1 = some { x.2.1 with done := h }
   claimsDel : ∀ x ∈ os, x.2.2 = .paid → x.2.1.typ.claimable = true →
-      sGet s'.claims (claimKey x.2.1.rcpt x.2.1.typ) = none
+      sGet s'.claims (claimKey (cfg.canon x.2.1.rcpt) x.2.1.typ) = none
   claimsShrink : ∀ k, sGet s'.claims k = some () → sGet s.claims k = some ()
   skippedOnlyInvalid : ∀ x ∈ os, x.2.2 = .skipped → cfg.validAddr x.2.1.rcpt = false
   failedOnlyRefused : ∀ x ∈ os, x.2.2 = .failed → cfg.validAddr x.2.1.rcpt = true
@@ -513,10 +513,10 @@ theorem payAll_spec (cfg : DispCfg) (h : Int) :
         rcases hy with rfl | hy
         · simp only at hp hc ⊢
           subst hp
-          have h1none : sGet s1.claims (claimKey r.rcpt r.typ) = none := by
+          have h1none : sGet s1.claims (claimKey (cfg.canon r.rcpt) r.typ) = none := by
             cases hrel with
             | paid _ _ _ => simp only [hc, if_true]; exact sGet_sDel_same hi.wf.sl _
-          cases hq : sGet s'.claims (claimKey r.rcpt r.typ) with
+          cases hq : sGet s'.claims (claimKey (cfg.canon r.rcpt) r.typ) with
           | none => rfl
           | some u => cases u; rw [hf.claimsShrink _ hq] at h1none; cases h1none
         · exact hf.claimsDel y hy hp hc
